@@ -407,7 +407,7 @@ PROPS = {
         "assumptions": ["Go timers fire at their deadline on the synctest fake clock"],
     },
     "C27": {
-        "theorems": ["C27_match_is_mqtt_matching", "C27_only_matching_callbacks", "C27_unsubscribed_not_invoked"],
+        "theorems": ["C27_match_is_mqtt_matching", "C27_only_matching_callbacks", "C27_unsubscribed_not_invoked", "C27_step_only_matching_callbacks", "C27_step_delivered_message_invokes_a_callback"],
         "drivers": ["drv_match", "drv_client.test"],
         "units": [Unit("drv_match", unit_match), Unit("drv_client", unit_client)],
         "mismatch_kinds": [r"match", r"^CB", r"EXTRA CB", r"MISSING CB", r"PANIC", r"MISSING-"],
